@@ -346,6 +346,40 @@ def rule_binder_align(ctx):
                 if qual == "expand_struct":
                     if f"syn::Member::Unnamed({i}.into())" not in body or "syn::Member::Named" not in body or f"{fv}.ident" not in body:
                         ctx.report(f"{rel}::{qual}:member", where, f"the member read in `{qual}` is not `Member::Unnamed({i})` / `Member::Named(ident)` of the same field", {})
+    # enum matchers: the complete binder list, in order, for both variant shapes (a positional pattern binding only a
+    # subset of the fields, `Self::V(_1, ..)`, binds `_1` to the *first* field)
+    for rel in (DISPLAY, DEBUG):
+        fn = A.get_fn(ctx.files, rel, "expand_enum")
+        f = fn.file
+        ctx.instance(f"{rel}::expand_enum:matcher")
+        binder = None
+        for loc, _ in A.find(fn.block, "Stmt::Local"):
+            init = loc.get("init")
+            if not init:
+                continue
+            r = A.render(init["expr"])
+            if "format_ident!" in r and "_{" in r:
+                binder = (A.render_pat(loc["pat"]), r, loc)
+        tt = [T.ir_text(t.ir).replace(" ", "") for t in T.templates_of(fn)]
+        pats = [x for x in tt if x.startswith("Self::#")]
+        if binder is None or not re.fullmatch(r"\w+", binder[0]) or not re.fullmatch(r"\w+\.fields\.iter\(\)\.enumerate\(\)\.map\(.*\)", binder[1]):
+            ctx.report(
+                f"{rel}::expand_enum:matcher-binders",
+                ctx.where(f, (binder[2] if binder else fn.node)),
+                "the match-arm pattern of `expand_enum` no longer binds the complete field list produced by one `variant.fields.iter().enumerate().map(..)`: "
+                "a positional pattern that lists only some fields (`Self::V(_1, ..)`) binds `_1` to the first field, so the body formats a neighbour of the intended field",
+                {"binder": binder[:2] if binder else None, "patterns": pats},
+            )
+            continue
+        b = binder[0]
+        want = {f"Self::#ident{{#(#{b}),*}}", f"Self::#ident(#(#{b}),*)", "Self::#ident"}
+        if set(pats) != want:
+            ctx.report(
+                f"{rel}::expand_enum:matcher-shape",
+                ctx.where(f, binder[2]),
+                f"the match-arm patterns of `expand_enum` are {sorted(pats)}; each variant shape must list every binder of `{b}` once, in order ({sorted(want)})",
+                {},
+            )
     fn = A.get_fn(ctx.files, MOD, "<syn::Fields as FieldsExt>::fmt_args_idents")
     body = ";".join(A.render_stmt(s) for s in fn.block["stmts"])
     n += 1
@@ -535,6 +569,66 @@ def rule_guard_use(ctx):
                         {},
                     )
     ctx.floor("bound templates", n, 6)
+    # GUARD-SCOPE: what a test on one type is allowed to gate
+    m = 0
+    for rel in (DISPLAY, DEBUG):
+        for fn in A.functions(ctx.files[rel]):
+            bts = []
+            for t in T.templates_of(fn):
+                ir = t.ir
+                if len(ir) >= 3 and ir[0]["t"] == "var" and ir[1]["t"] == "p" and ir[1]["c"] == ":" and "derive_more::core::fmt::" in T.ir_text(ir).replace(" ", "") and not any(x["t"] == "id" and x["s"] == "impl" for x in ir):
+                    bts.append(t)
+            if not bts:
+                continue
+            for mc, ps in A.method_calls(fn.block, "contains_generics"):
+                r = mc["receiver"]
+                if A.kind(r) != "Expr::Path":
+                    continue
+                name = A.path_str(r)
+                goff = A.span_of(mc)[0]
+                # the `if` whose condition is this test (possibly negated)
+                iff = next((q for q in reversed(ps) if A.kind(q) == "Expr::If"), None)
+                if iff is None or not (A.span_of(iff["cond"])[0] <= goff <= A.span_of(iff["cond"])[1]):
+                    continue
+                cond = A.render(iff["cond"])
+                neg = cond.startswith("!")
+                region = None
+                if not neg:
+                    region = A.span_of(iff["then_branch"])
+                else:
+                    then = ";".join(A.render_stmt(x) for x in iff["then_branch"]["stmts"])
+                    if not then.startswith("return"):
+                        continue
+                    # everything after the `if` in the enclosing block
+                    idx = list(ps).index(iff) if iff in ps else None
+                    blk = None
+                    for q in reversed(ps[: idx if idx is not None else len(ps)]):
+                        if A.kind(q) == "Block":
+                            blk = q
+                            break
+                    if blk is None:
+                        continue
+                    end = A.span_of(blk)[1]
+                    region = (A.span_of(iff)[1], end)
+                if region is None:
+                    continue
+                m += 1
+                ctx.instance(f"{rel}::{fn.qual}:guard-scope:{name}#{m}", sample={"fn": fn.qual, "test": cond, "gates_bytes": region[1] - region[0]})
+                for t in bts:
+                    v = t.ir[0]
+                    off = v["span"][0]
+                    if not (region[0] <= off <= region[1]):
+                        continue
+                    if v["s"] == name and _same_binding(fn, name, off, goff):
+                        continue
+                    ctx.report(
+                        f"{rel}::{fn.qual}:guard-scope:{name}->{v['s']}#{t.ordinal}",
+                        ctx.where(fn.file, mc),
+                        f"in `{fn.qual}` the test `{cond}` also decides whether the bound `{T.ir_text(t.ir)}` (line {t.line}) is emitted, but that bound is about another type than the tested `{name}`: "
+                        "a non-generic field whose `#[..(\"{other}\")]` attribute formats a generic field gets no bound for it (the impl does not compile without user bounds)",
+                        {},
+                    )
+    ctx.floor("guard scopes", m, 6)
 
 
 def _syn_src(ctx, fname):
